@@ -67,8 +67,75 @@ func scriptFail(k failKind) []Step {
 	return out
 }
 
+// branch outcomes of the fan-out family: what one destination branch of the gated pass does
+//
+//	ok        the branch writes the record
+//	err       its Write fails (a transient cause)
+//	nack      it rejects the record; whether that is absorbed, exceeds the nack threshold (fatal) or meets a
+//	          switched-off DLQ is decided by the window and the rejections that came before
+//	nack+dlq  it rejects the record and the DLQ write that follows fails (fatal)
+var branchOutcomes = []string{"ok", "err", "err", "nack", "nack+dlq", "nack+dlq"}
+
+// GenFanout builds one history of the fan-out family (arch-v2, one source, TWO destinations): both
+// destination branches of one batch pass are parked at their gates, given an outcome each and released one
+// after the other, so that the branch errors reach the branch pool of funnel.Worker.doNextTask in a chosen
+// order: transient first and a fatal cause on the sibling afterwards, the symmetric order, two of a kind, one
+// failing branch only. The pass's error is the join of the branch errors: a fatal cause on ANY branch must
+// degrade the pipeline, whichever branch failed first.
+func GenFanout(r *hx.Rand) Input {
+	c := randCfg(r, "v2")
+	c.Dests = 2
+	d := [][2]int{{2, 1}, {2, 1}, {5, 2}, {1, 0}, {0, 0}}[r.Intn(5)]
+	c.DLQSize, c.DLQThr = d[0], d[1]
+	in := Input{Cfg: c, Shape: "fanout-join"}
+	s := []Step{st("call", "start", "", 0), st("await", "open", "", 0)}
+	if r.Bool() {
+		s = append(s, st("emit", "", "", r.Range(1, 2)), st("await", "idle", "", 5000))
+	}
+	// rejections before the gated pass (they fill the DLQ window: the next one may exceed the threshold)
+	for i, n := 0, r.Intn(c.DLQThr+1); i < n; i++ {
+		s = append(s, st("script", []string{"dst.write", "dst2.write"}[r.Intn(2)], "nack", 0), st("emit", "", "", 1),
+			st("await", "idle", "", 5000), st("sleep", "", "", 500))
+	}
+	br := []string{"dst", "dst2"}
+	if r.Bool() {
+		br[0], br[1] = br[1], br[0]
+	}
+	out := []string{branchOutcomes[r.Intn(len(branchOutcomes))], branchOutcomes[r.Intn(len(branchOutcomes))]}
+	if r.Chance(1, 3) { // the shape that needs the order: transient first, the fatal cause afterwards
+		out[0], out[1] = "err", []string{"nack", "nack+dlq"}[r.Intn(2)]
+	}
+	s = append(s, st("hold", "dst.write", "", 0), st("hold", "dst2.write", "", 0))
+	dlqFails := false
+	for i := range br {
+		switch out[i] {
+		case "err":
+			s = append(s, st("script", br[i]+".write", "err", 0))
+		case "nack":
+			s = append(s, st("script", br[i]+".write", "nack", 0))
+		case "nack+dlq":
+			s = append(s, st("script", br[i]+".write", "nack", 0))
+			dlqFails = true
+		}
+	}
+	if dlqFails {
+		s = append(s, st("script", "dlq.write", "err", 0))
+	}
+	s = append(s, st("emit", "", "", 1), st("await", "arrive:dst.write", "", 10000), st("await", "arrive:dst2.write", "", 10000),
+		st("release", br[0]+".write", "", 0), st("sleep", "", "", r.Range(300, 4000)), st("release", br[1]+".write", "", 0),
+		st("await", "stopped", "", 10000), st("sleep", "", "", r.Range(0, 15000)))
+	if r.Chance(1, 4) {
+		s = append(s, st("call", "wait", "", 0))
+	}
+	in.Steps = s
+	return in
+}
+
 // GenC10 builds one history that stresses the classification and the back-off.
 func GenC10(r *hx.Rand, engine string) Input {
+	if engine == "v2" && r.Chance(1, 4) {
+		return GenFanout(r)
+	}
 	c := randCfg(r, engine)
 	in := Input{Cfg: c}
 	s := []Step{st("call", "start", "", 0), st("await", "open", "", 0)}
